@@ -40,11 +40,12 @@ META = {
  "C13": dict(
    technique="contract-based deductive verification of every mutating / observing Continuum operation against an abstract view "
              "(annotator set, unit set per annotator, category set, bounds) over a model of sortedcontainers whose precondition "
-             "(Unit.__lt__ is the documented strict total order) is itself proved; __eq__ by a bounded stand-in",
+             "(Unit.__lt__ is the documented strict total order) is itself proved; __eq__ / __ne__ by canonical-enumeration lemmas",
    level="Each operation requires the representation invariant and ensures it together with the whole new view (frame included), so "
          "by induction every history yields the plain set-per-annotator model; zero-length rejection is an iff with the view unchanged; "
          "copy / merge / __add__ results are proved fresh and disjoint from their sources.",
-   note="Assumed: sortedcontainers / deepcopy / pyannote Segment models. Bounded only: __eq__, __ne__, __getitem__, iterunits."),
+   note="Also proved: a == b iff same annotators and same units (hence an equivalence), __getitem__ by annotator and by (annotator, index). "
+        "Assumed: sortedcontainers / deepcopy / pyannote Segment models. Bounded only: iterunits."),
  "C16": dict(
    technique="contract-based deductive verification of ShuffleContinuumSampler.sample_from_continuum (three nested loops, ghost arrays of the "
              "chosen ground-truth annotator and pivot per sampled annotator, every random draw unconstrained within its support) and of "
@@ -57,10 +58,14 @@ META = {
    note="Known finding (int_pivot mode): truncation can leave the available segment, see known_findings.json. Assumed: RNG support model, sortedcontainers."),
  "C03": dict(
    technique="contract-based deductive verification of the disorder kernel (ghost pair-fold, loop invariants, n(n-1)/2 exact) and of the "
-             "disorder clauses of get_best_alignment / get_best_soft_alignment; remaining accessors by a bounded stand-in",
+             "disorder clauses of get_best_alignment / get_best_soft_alignment, of the recomputation path (encoding of an alignment, "
+             "compute_disorder of the dissimilarity and of both alignment classes) and of the lazy disorder property; the rest by a bounded stand-in",
    level="Proved for all inputs: _compute_alignment_disorders returns for each unitary alignment the fold over the pairs j < i of "
          "delta_empty-or-d_mat divided by n(n-1)/2 (with 2*C2 == n(n-1)); the alignments returned by the best / soft computations cache "
-         "sum(tau.disorder)/x-bar and each tau carries its candidate's disorder (C07). Bounded (labelled): compute_disorder paths, order independence.",
+         "sum(tau.disorder)/x-bar and each tau carries its candidate's disorder (C07); recomputing stores in every unitary alignment the "
+         "kernel's value on its rank-indexed encoding (independent of the order in which annotators are listed) and in the alignment their sum over "
+         "x-bar; the lazy property returns the sum of the carried values over x-bar (attached and detached alignments). Bounded (labelled): "
+         "recomputed == carried end to end, recomputation of detached alignments.",
    note="Known finding: UnitaryAlignment.compute_disorder (pinned by an existing test), see known_findings.json."),
  "C04": dict(
    technique="contract-based deductive verification of the compiled kernels (closures extracted from compile_d_mat, captured variables "
@@ -93,8 +98,9 @@ META = {
  "C14": dict(
    technique="frame clauses: (a) heap frame obligations of the deductive verifier (objects outside `modifies` unchanged at every exit; "
              "results fresh and disjoint) for the functions under contract, (b) the effect analysis for every listed entry point",
-   level="Proved: best / soft alignment, valid_alignments, gamma_k_disorder, d() leave continuum and dissimilarity unchanged; copy, merge, "
-         "__add__, copy_flush return fresh objects sharing no mutable state. Effect analysis: no listed entry point writes through its "
+   level="Proved: best / soft / fast alignment, valid_alignments, gamma_k_disorder, d(), recomputed disorders, both samplers' draws and every "
+         "sampler initialisation, corpus_from_reference and false_neg_shuffle leave the continuum and dissimilarity they were given unchanged; copy, merge, "
+         "__add__, copy_flush, samples and corpora are fresh objects sharing no mutable state. Effect analysis: no listed entry point writes through its "
          "input parameters. Bounded (labelled): the remaining entry points by snapshot comparison.",
    note="Assumed: deepcopy / sortedcontainers models; name-based call graph."),
  "C05": dict(
@@ -137,7 +143,9 @@ META = {
          "longer than the precision (RI), only labels from the sampler's category array, bounds / window copied from the reference, reference "
          "untouched. Law tags: unit count ~ |int Normal(avg_nb, std_nb)|, gaps ~ Normal(avg_gap, std_gap) chained on the previous end, durations "
          "~ |Normal(avg_dur, std_dur)|, categories ~ Categorical(categories, weights); parameters measured with mean / std of the same sample or "
-         "exactly those supplied.",
+         "exactly those supplied. Also proved: the four measuring setters (mean / np.std of exactly the reference's per-annotator counts and unit "
+         "durations, category frequencies, and of a gap list holding only adjacent-unit distances and positive first starts), "
+         "StatisticalContinuumSampler.init_sampling (both ground-truth forms) over them, and init_sampling_custom (the supplied parameters).",
    note="Not decided: convergence of empirical statistics (statistical); NumPy's generators are assumed to implement the tagged laws."),
  "C10": dict(
    technique="contract-based deductive verification of Continuum.get_fast_alignment (three nested loops: outer variant NumUnits(copy), "
